@@ -232,7 +232,7 @@ def rule_attach(ctx: Ctx):
                 return " and ".join(show(c) for c in t.generators[0].ifs)
             return None
 
-        for p in ctx.paths(ss, inline=None, exc_edges="none"):
+        for p in ctx.paths(ss, inline=None, exc_edges="none", comps_for_loops=True):
             reg = [e.idx for e in p.calls() if show(e.term.func) == "self._register_callbacks"]
             late_ = [e.idx for e in p.calls() if show(e.term.func) in ("self.add_listener", "self._add_listener")]
             if reg and late_ and min(late_) < max(reg):
